@@ -8,6 +8,48 @@ from *their own bodies* as extracted from the current source, everything data-de
 from facts import is_node, walk, AnalysisBroken
 
 NIV = "nifly::NiVersion"
+# locals that merely cache a version expression: (decl id, name) -> initialiser node (filled by the summaries)
+VERSION_LOCALS = {}
+
+
+def _acc(short):
+    return {"k": "Call", "cls": NIV, "short": short, "args": [], "t": "", "loc": ""}
+
+
+# one-symbol-wide alias table with reasons (DESIGN R1.3)
+READER_ALIASES = {
+    "nifly::NiHeader::Get": {
+        "vfile": _acc("File"),      # stored by version.SetFile(vfile) before any gate that depends on it is evaluated again
+        "vuser": _acc("User"),      # stored by version.SetUser(vuser)
+        "vstream": _acc("Stream"),  # stored by version.SetStream(vstream)
+        "isNDS": {"k": "Lit", "lk": "bool", "val": 0, "t": "bool", "loc": ""},  # NDS headers are outside the supported version space
+    },
+}
+
+
+def pure_version_init(e):
+    """is e built only from NiVersion accessors / predicates, constants and stream/header plumbing?"""
+    saw = False
+    for n in walk(e):
+        k = n["k"]
+        if k == "Call":
+            if n.get("cls") == NIV:
+                saw = True
+            elif n.get("short") in ("GetVersion", "GetHeader"):
+                continue
+            else:
+                return False
+        elif k == "Member" and n.get("owner") == NIV:
+            saw = True
+        elif k == "Ref":
+            if n.get("rk") in ("local", "param") and "Stream" not in (n.get("t") or "") and "Header" not in (n.get("t") or "") \
+                    and "NiVersion" not in (n.get("t") or "") and (n["id"], n["name"]) not in VERSION_LOCALS:
+                return False
+        elif k in ("Binary", "Unary", "Lit", "Cast", "This", "Member", "Cond"):
+            continue
+        else:
+            return False
+    return saw
 
 
 class VersionEval:
@@ -34,6 +76,8 @@ class VersionEval:
         k = e["k"]
         if binds and k == "Ref" and e.get("id") in binds:
             return binds[e["id"]]
+        if k == "Ref" and e.get("rk") == "local" and (e.get("id"), e.get("name")) in VERSION_LOCALS:
+            return self.ev(VERSION_LOCALS[(e["id"], e["name"])], ver, depth + 1, binds)
         if k == "Call" and e.get("fid") in self.F.fns and e.get("cls") == NIV and e.get("smeth") and e.get("args"):
             # small pure static helpers (NiVersion::ToFile): evaluate the single return expression with bound arguments
             fn = self.F.fns[e["fid"]]
@@ -124,6 +168,8 @@ class VersionEval:
             if n["k"] == "Call" and n.get("cls") == NIV:
                 return True
             if n["k"] == "Member" and n.get("owner") == NIV:
+                return True
+            if n["k"] == "Ref" and n.get("rk") == "local" and (n.get("id"), n.get("name")) in VERSION_LOCALS:
                 return True
         return False
 
